@@ -19,7 +19,7 @@ Import ListNotations.
 Theorem C15_roundtrip :
   forall (msg : Type) (deser : bytes -> option msg) (min : nat) (limit : Z) (ops : list wal_op)
          (ms : list msg) (cont : bool),
-    Forall2 (good msg deser) (written ops) ms ->
+    Forall2 (good msg deser) (written min limit ops) ms ->
     let g := final_group min limit ops in
     read_log crc32c msg deser cont RGroup (group_stream g (g_min g)) = map ObMsg ms ++ [ObEof].
 Proof. exact top_roundtrip. Qed.
@@ -38,7 +38,7 @@ Print Assumptions C15_roundtrip_bytes.
 Theorem C15_rotation_between_records :
   forall (min : nat) (limit : Z) (ops : list wal_op),
     exists chunks, disk_files (final_group min limit ops) = map (frames crc32c) chunks /\
-                   concat chunks = written ops.
+                   concat chunks = written min limit ops.
 Proof. exact top_rotation. Qed.
 Print Assumptions C15_rotation_between_records.
 
@@ -114,21 +114,38 @@ Theorem C15_lenflip_residual :
 Proof. exact top_lenflip. Qed.
 Print Assumptions C15_lenflip_residual.
 
-(** SearchForEndHeight on the group produced by any operation sequence (valid messages, strictly
-    increasing end-height markers): found iff the marker was written, and the returned reader is
-    positioned exactly after the marker's frame (its remaining bytes are the frames written after it). *)
+(** SearchForEndHeight on the group produced by any operation sequence, restarts included
+    ([WStart]: Stop, NewWAL on the same files, Start — OnStart writes EndHeightMessage{0} whenever the
+    head file is empty, so also after a rotation).  Hypothesis: the messages are valid and the POSITIVE
+    end-height markers increase strictly; markers <= 0 (the restart marker) may occur anywhere and
+    repeat.  Then a positive height is found iff it was written, with the returned reader positioned
+    exactly after the marker's frame (its remaining bytes are the frames written after it); a
+    non-positive height is found iff it was written. *)
 Theorem C15_search_iff :
   forall (msg : Type) (deser : bytes -> option msg) (end_height : msg -> option Z)
          (min : nat) (limit : Z) (ops : list wal_op) (h : Z) (ign : bool),
-    Forall (goodp msg deser) (written ops) ->
-    StronglySorted Z.lt (marks msg deser end_height (written ops)) ->
+    Forall (goodp msg deser) (written min limit ops) ->
+    StronglySorted Z.lt (pos_marks msg deser end_height (written min limit ops)) ->
     let g := final_group min limit ops in
-    (forall pre p0 post, written ops = pre ++ p0 :: post -> mark msg deser end_height p0 = Some h ->
+    (forall pre p0 post, (0 < h)%Z -> written min limit ops = pre ++ p0 :: post ->
+       mark msg deser end_height p0 = Some h ->
        search crc32c msg deser end_height g h ign = SFound (frames crc32c post)) /\
-    (~ In h (marks msg deser end_height (written ops)) ->
+    ((h <= 0)%Z -> In h (marks msg deser end_height (written min limit ops)) ->
+       exists rest, search crc32c msg deser end_height g h ign = SFound rest) /\
+    (~ In h (marks msg deser end_height (written min limit ops)) ->
        search crc32c msg deser end_height g h ign = SNotFound).
 Proof. exact top_search. Qed.
 Print Assumptions C15_search_iff.
+
+(** the restart-after-rotation scenario, computed: the newest file holds only the restart marker,
+    heights in the rotated files are still found *)
+Theorem C15_search_after_restart_example :
+  let ops := [WStart [1%N]; WWriteSync [4%N]; WWriteSync [5%N]; WTick; WStart [1%N]] in
+  written 0 10 ops = [[1%N]; [4%N]; [5%N]; [1%N]] /\
+  search crc32c Z toy0_deser toy_eh (final_group 0 10 ops) 3 true = SFound (frames crc32c [[5%N]; [1%N]]) /\
+  search crc32c Z toy0_deser toy_eh (final_group 0 10 ops) 4 true = SFound (frame crc32c [1%N]).
+Proof. exact toy_search_after_restart. Qed.
+Print Assumptions C15_search_after_restart_example.
 
 (** repairWalFile keeps exactly the frames of the longest decodable prefix: whole canonical frames
     followed by anything whose first Decode is not a message are repaired to those frames. *)
